@@ -34,8 +34,8 @@ pub const NAMES: [&str; 3] = ["a", "lib-x+1.0", "0ad"];
 pub const ARCHQUALS: [&str; 3] = ["", "any", "amd64"];
 pub const OPS: [&str; 6] = ["", ">=", "<<", "<=", "=", ">>"];
 /// every combination of epoch / plain or decorated upstream part / revision (the first three are the original menu)
-pub const VERS: [&str; 8] = ["1", "1.0-1~rc1", "2:1.0", "1-1", "1:1", "1:1-1", "1.0~rc1+dfsg", "3:1.0~rc1+dfsg-2ubuntu1"];
-pub const ARCHS: [&[&str]; 6] = [&[], &["amd64"], &["amd64", "i386"], &["!amd64"], &["!amd64", "!i386"], &["linux-any", "any-i386"]];
+pub const VERS: [&str; 11] = ["1", "1.0-1~rc1", "2:1.0", "1-1", "1:1", "1:1-1", "1.0~rc1+dfsg", "3:1.0~rc1+dfsg-2ubuntu1", "0:1.0", "1-2-3", "01.0-01"];
+pub const ARCHS: [&[&str]; 8] = [&[], &["amd64"], &["amd64", "i386"], &["!amd64"], &["!amd64", "!i386"], &["linux-any", "any-i386"], &["amd64", "i386", "arm64"], &["!amd64", "!i386", "!arm64", "!mips"]];
 pub const PROFILES: [&[&[&str]]; 8] = [&[], &[&["x"]], &[&["!x"]], &[&["x", "y"]], &[&["!x", "y"], &["z"]], &[&["x", "!y"]], &[&["!x", "!y", "z"]], &[&["x"], &["y", "!z"], &["!w"]]];
 /// whitespace around ',' and '|' and at the field's start/end (the bare line break is what a folded control field
 /// looks like once the value accessor has removed the indentation)
@@ -53,7 +53,7 @@ pub const SUBSTVAR: &str = "${a:B}";
 pub const REL_SLOTS: usize = 13;
 // name, archqual, op, version, archs, profiles, ws name-paren, ws op-version, ws before archs, ws before profiles, item ws,
 // blank just inside the parentheses, blank just inside the [ ] and < > brackets
-const REL_MENUS: [usize; REL_SLOTS] = [3, 3, 6, VERS.len(), 6, 8, 4, 3, 4, 4, 5, 2, 2];
+const REL_MENUS: [usize; REL_SLOTS] = [3, 3, 6, VERS.len(), ARCHS.len(), 8, 4, 3, 4, 4, 5, 2, 2];
 
 /// Slot layout: [lead ws, trail ws, trailing comma] then per entry: [kind, ws before ',', ws after ','] + per alt: [ws before '|', ws after '|'] + relation slots
 pub fn menus(sk: RSkel) -> Vec<usize> {
